@@ -167,3 +167,44 @@ package coregex
 //@   loop 1: invariant forall k :: 0 <= k && k < len(pieces) ==> base(pieces[k]) == base(s) && off(s) <= off(pieces[k]) && off(pieces[k]) + len(pieces[k]) <= off(s) + end
 //@   loop 1: invariant forall k :: 0 <= k && k + 1 < len(pieces) ==> off(pieces[k]) + len(pieces[k]) <= off(pieces[k+1])
 //@   loop 1: decreases rangelen - rangeindex
+
+// ---- template expansion (C08) ----
+
+// decimal value of the first k bytes of s
+//@ opaque spec func decval(s string, k int) int = ite(k <= 0, 0, decval(s, k - 1) * 10 + (int(s[k-1]) - 48))
+//@ spec func isDigitByte(c byte) bool = '0' <= c && c <= '9'
+
+//@ func extractTemplateRef
+//@   props C08 C07 C05
+//@   requires len(str) <= 140737488355328
+//@   ensures ok ==> len(name) >= 1 && base(name) == base(str) && base(rest) == base(str) && off(rest) + len(rest) == off(str) + len(str)
+//@   ensures ok && len(str) > 0 && str[0] != '{' ==> off(name) == off(str) && off(rest) == off(name) + len(name)
+//@   ensures ok && len(str) > 0 && str[0] == '{' ==> off(name) == off(str) + 1 && off(rest) == off(name) + len(name) + 1 && str[len(name) + 1] == '}'
+//@   ensures ok ==> num >= -1 && num < 1000000000
+//@   ensures ok && num >= 0 ==> (forall j :: 0 <= j && j < len(name) ==> isDigitByte(name[j])) && num == decval(name, len(name)) && !(name[0] == '0' && len(name) > 1)
+//@   ensures ok && (forall j :: 0 <= j && j < len(name) ==> isDigitByte(name[j])) && !(name[0] == '0' && len(name) > 1) && len(name) <= 8 ==> num >= 0
+//@   ensures len(str) == 0 ==> !ok
+//@   loop 1: invariant 0 <= i && i <= len(str)
+//@   loop 1: decreases len(str) - i
+//@   loop 2: invariant 0 <= k && k <= len(name) && 0 <= num && num < 1000000000 && num == decval(name, k)
+//@   loop 2: invariant forall j :: 0 <= j && j < k ==> isDigitByte(name[j])
+//@   loop 2: invariant num < 100000000 || k >= 9
+//@   loop 2: decreases len(name) - k
+
+//@ spec func matchOK(match []int, src []byte) bool = forall j :: 0 <= j && j + 1 < len(match) && j % 2 == 0 && match[j] >= 0 ==> match[j] <= match[j+1] && match[j+1] <= len(src)
+
+//@ func (*Regex).expand
+//@   props C08 C07 C05
+//@   requires r != nil && r.engine != nil && matchOK(match, src) && len(template) <= 70368744177664 && len(dst) <= 70368744177664 && len(src) <= 70368744177664
+//@   requires base(dst) != base(match) && base(dst) != base(src) && base(dst) != base(template)
+//@   modifies dst[*]
+//@   ensures len(result) >= len(dst) && (forall k :: 0 <= k && k < len(dst) ==> result[k] == old(dst[k]))
+//@   ensures (base(result) == base(dst) && off(result) == off(dst)) || fresh(result)
+//@   loop 1: invariant len(dst) >= old(len(dst)) && (forall k :: 0 <= k && k < old(len(dst)) ==> dst[k] == old(dst[k]))
+//@   loop 1: invariant (base(dst) == old(base(dst)) && off(dst) == old(off(dst))) || fresh(dst)
+//@   loop 1: invariant len(tmpl) <= len(template)
+//@   loop 1: decreases len(tmpl)
+//@   loop 2: invariant -1 <= rangeindex && rangeindex <= rangelen
+//@   loop 2: invariant len(dst) >= old(len(dst)) && (forall k :: 0 <= k && k < old(len(dst)) ==> dst[k] == old(dst[k]))
+//@   loop 2: invariant (base(dst) == old(base(dst)) && off(dst) == old(off(dst))) || fresh(dst)
+//@   loop 2: decreases rangelen - rangeindex
